@@ -116,7 +116,7 @@ def cases(spec, ctx):
                         "variant": "sfx-last",
                     }
                     # the documentation allows any string after the first dot, dots included
-                    yield {"work": "accept", "keys": pipes.keys_for(kinds, suffix_first={kinds[idx % len(kinds)]}, style=["dotted", "word"][idx % 2]),
+                    yield {"work": "accept", "keys": pipes.keys_for(kinds, suffix_first={kinds[idx % len(kinds)]}, style=["dotted", "word", "kindname"][idx % 3]),
                            "variant": "sfx-free"}
                 elif idx % 97 == 0:
                     yield {"work": "accept", "keys": pipes.keys_for(kinds, suffix_first=set(kinds)), "variant": "sfx"}
